@@ -28,6 +28,8 @@ def gen_cases(tier):
     for a, b in itertools.combinations(labels, 2):
         if a.split(":")[0] == b.split(":")[0] and a.split(":")[0] not in ("foo", "text-first", "text-later"):
             continue          # two settings of the same slot: the second simply overrides the first
+        if {a, b} == {"dependency", "dependencyvalue-spelling"}:
+            continue          # the same attribute in its two spellings at once: not a sensible 1.0 document
         cases.append({"devs": [a, b]})
     if tier == "thorough":
         core = [l for l in labels if l.split(":")[0] in ("text-first", "unit", "type", "prop-names", "sec-names", "foo",
@@ -133,6 +135,9 @@ def _run(case, scratch):
                 fail("content:" + clause, label, snapshot.short(repr(detail)), detail=clause)
             log = "\n".join(conv.conversion_log)
             for what, words in tokens:
+                if what == "unnamed-property" and any("property" in l.lower() and "name" in l.lower()
+                                                      for l in conv.conversion_log):
+                    continue        # whatever the wording: an entry about a Property and its (missing) name
                 if not any(w in log for w in words):
                     fail("dropped-item-not-in-the-conversion-log", label, {"item": what, "expected_mention": words,
                                                                             "log": log[:300]}, detail=what.split("-")[0])
